@@ -15,10 +15,15 @@ CLAIMS = {
     "C07": (
         "Proof (Lean 4) over the macro-kind table regenerated from join/src/lib.rs on every run: the extracted table equals the documented "
         "one, each alias has exactly the configuration of the macro it aliases (hence expands every input to identical code, ∀ inputs), "
-        "a spawn variant differs from its plain counterpart only in is_spawn; value agreement spawn vs plain is a corollary of the "
-        "refinement theorems (Props/C03 family) where proved. K1 runs every program under all configurations; K2 compiles the 12 names.",
-        NOTE_COMMON + "The extractor additionally checks that the 12 entry points are textually identical up to the three booleans.",
-        "Lean 4 proof over translated tables + refinement corollaries; K1/K2 differential tie", "§7 C07"),
+        "a spawn variant differs from its plain counterpart only in is_spawn. Semantic part: spawn_agrees — for every program, world and calling "
+        "thread the code generated for join_spawn!/try_join_spawn! and the code generated for join!/try_join! end with the same value (same tuple "
+        "or same failure), or both panic (specLoop_spawning_sim: forked-and-joined chains give what chains run one after the other give; "
+        "carried to the generated code by the refinement theorem); async_spawn_agrees — join_async_spawn! and join_async! have the same "
+        "events and outcome under the canonical schedule. K1 runs every program under all configurations; K2 compiles the 12 names.",
+        NOTE_COMMON + "The extractor additionally checks that the 12 entry points are textually identical up to the three booleans. "
+        "try_join_async!/try_join_async_spawn! agreement is by async_try_refines for each (same reference loop specLoopAT); tokio's task "
+        "scheduling is outside the model.",
+        "Lean 4 proof over translated tables + spawn-agreement theorem through the refinement; K1/K2 differential tie", "§7 C07"),
     "C20": (
         "Proof (Lean 4): the model's expansion is a function, so histories are List.map of it (order-, repetition- and context-independence "
         "are theorems). The property is about hidden state in the implementation, so the deciding tie is K1 in purity mode: every input is "
@@ -76,7 +81,10 @@ ASYNC_NOTE = ("Async variants: the refinement theorems speak about the canonical
 CLAIMS["C03"] = (REFINE + "Property theorems (Props/C03): on the calling thread the events are sorted by (step, captures before chains) for every "
                  "program; a chain's input is its own branch's previous result; barrier_every_schedule (Lemmas/LinLoop): for EVERY global order of "
                  "events admitted by the schedule relation Lin (caller in program order, each forked chain in its own order after its fork, a join "
-                 "only after its thread finished) the step numbers of a whole run never decrease - all programs, worlds, sizes, panics included. " + K2NOTE,
+                 "only after its thread finished) the step numbers of a whole run never decrease - all programs, worlds, sizes, panics included; "
+                 "async_barrier_every_schedule (Async.lean Plan.Leveled): the `async move` block of any async macro, polled with ANY sequence of "
+                 "sets of open gates (any order in which pending futures become ready, batches, spurious polls, finished or not), emits events "
+                 "whose step numbers never decrease - also when chains fail or panic. " + K2NOTE,
                  NOTE_COMMON + ASYNC_NOTE, "Lean 4 refinement proof + order theorems on the reference loop; K2 barrier oracle on real executions", "§7 C03")
 CLAIMS["C04"] = (REFINE + "Props/C04: element i of a non-try result is what branch i's own last chain returned (∀ profiles); a step only touches "
                  "the positions of its active branches; handler and result are built from the same list. " + K2NOTE,
@@ -87,11 +95,15 @@ CLAIMS["C06"] = (REFINE + "Props/C06: after a failing step j no event of a later
                  "of the loop under the canonical schedule, and failed_step_aborts_every_schedule (poll-level plan, Plan.run_stopper): if some "
                  "chain of step k ends with a failure (or panics), then under EVERY schedule of gate openings every event emitted from there on "
                  "belongs to step k — no capture, chain or callback of a later step, no handler call — and the future is either still in step k "
-                 "or finished with that step's failure, unchanged (or the panic). " + K2NOTE, NOTE_COMMON + ASYNC_NOTE,
+                 "or finished with that step's failure, unchanged (or the panic); failed_step_result_every_schedule: polled with every gate open "
+                 "it is finished, with exactly that. " + K2NOTE, NOTE_COMMON + ASYNC_NOTE,
                  "Lean 4 refinement proof + trace theorems; K2 event-log differential", "§7 C06")
 CLAIMS["C11"] = (REFINE + "Props/C11: the hoisting operator set equals the documented one (table theorem over regenerated T9); capture events are "
                  "exactly (active branch, position, operand) in order, once each; sorted before the chains of their step and after the previous "
-                 "step; never inside a branch thread; the operand is replaced by the bound name. " + K2NOTE, NOTE_COMMON + ASYNC_NOTE,
+                 "step; never inside a branch thread; the operand is replaced by the bound name; async_captures_before_chains_every_schedule: in the "
+                 "async macros, under every schedule of gate openings, the block captures of step k come after the last event of step k-1 and before "
+                 "the first event of any chain of step k (key 2k / 2k+1 never decreases along the emitted events; failures and panics included). "
+                 + K2NOTE, NOTE_COMMON + ASYNC_NOTE,
                  "Lean 4 table theorem + refinement + order theorems; K1/K2 differential", "§7 C11")
 CLAIMS["C12"] = (REFINE + "Props/C12: every capture of step k sees exactly the named branches' latest values (wrapped in try macros, finished "
                  "branches included), nothing in step 0; the generated code's visibility equals the reference's (invariant of the refinement). "
@@ -108,7 +120,9 @@ CLAIMS["C13"] = (REFINE + "Props/C13: then/map/and_then semantics of the referen
                  "Lean 4 refinement + decision theorem for rejections; K1 rejection oracle; K2 handler events", "§7 C13")
 CLAIMS["C18"] = (REFINE + "Props/C18: a panicking chain/capture/handler makes the step and hence the macro panic (sequential: first in branch "
                  "order; threads: at the join of the panicked thread, caller not blocked), and the trace then contains only events of steps up to "
-                 "the panicking one. " + K2NOTE, NOTE_COMMON + ASYNC_NOTE + "Behaviour of tokio on a panicking task is assumed (template __spawn_tokio).",
+                 "the panicking one; async_chain_panic_every_schedule: in a non-try async macro a panicking chain of step k makes the future, under "
+                 "every schedule that ends with all gates open, complete with the panic of one of step k's panicking chains, nothing of a later "
+                 "step having run. " + K2NOTE, NOTE_COMMON + ASYNC_NOTE + "Behaviour of tokio on a panicking task is assumed (template __spawn_tokio).",
                  "Lean 4 refinement + panic propagation theorems; K2 panic injection with watchdog", "§7 C18")
 CLAIMS["C01"] = ("Props/C01 (Lean 4): each of the 23 documented token sequences selects its combinator in the ordered determiner table, for "
                  "every continuation (∀ rest; the two prefix cases `=>`/`=>[]`, `?|>`/`?|>@` with their side condition); the extracted operand "
